@@ -143,9 +143,24 @@ func OracleC08(ix *Index, out *Outcome) ([]vp.Violation, Judged) {
 	// completeness: in a run that was allowed to finish with an unlimited DLQ
 	// window every source record must have reached an outcome
 	if out.Settled && sc.Topo.DLQWindow == 0 && (out.FinalStatus == "UserStopped" || out.FinalStatus == "Running") && len(sc.Steps) == 0 {
+		// A record may also have been acknowledged only durably: its position was
+		// stored, the run failed for another reason before the plugin-side ack was
+		// delivered, and the next run was opened behind it (the per-record clauses
+		// above judge the plugin-side acks; C01/C02 judge what may be stored).
+		reopenedAt := map[string]int{}
+		for i := range evs {
+			e := &evs[i]
+			if e.Kind == rig.KSrcOpen && e.Err == "" && len(e.Idx) == 1 && e.Idx[0] > reopenedAt[e.Comp] {
+				reopenedAt[e.Comp] = e.Idx[0]
+			}
+		}
 		for i, s := range sc.Topo.Sources {
 			for k := 0; k < sc.Records[i]; k++ {
 				j.Obligations++
+				if k <= reopenedAt[s.ID] && reopenedAt[s.ID] > 0 {
+					j.ByHow["acknowledged_durably_only"]++
+					continue
+				}
 				if _, ok := acked[rig.Lin{Src: s.ID, Idx: k}]; !ok {
 					add("record-without-outcome", "", fmt.Sprintf("run finished healthy (%s) but record %s#%d never reached an outcome", out.FinalStatus, s.ID, k))
 					break
